@@ -814,7 +814,7 @@ class Interp(object):
                 cov = ("init", stored, regions)
                 if full:
                     sv = self.api.as_num(stored)
-                    return arr.replace(alg=dict(sv.alg), sign=sv.sign, mono=frozenset(), f0=False, const=_NOCONST,
+                    return arr.replace(alg=dict(sv.alg), sign=sv.sign, mono=frozenset(), f0=False, const=_NOCONST, parts=None,
                                        tags=arr.tags | stored.tags | idx.tags, indef=arr.indef or stored.indef, note=cov)
         keep_f0 = False
         if arr.f0 and idx is not None:
@@ -823,10 +823,20 @@ class Interp(object):
                 lo = last.items[0]
                 keep_f0 = lo.has_const() and isinstance(lo.const, int) and lo.const >= 1
         if arr.kind == K_LIST:
-            return arr.replace(elem=join_av(arr.elem, v) if arr.elem is not None else v, items=None,
+            return arr.replace(elem=join_av(arr.elem, v) if arr.elem is not None else v, items=None, parts=None,
                                tags=arr.tags | v.tags, indef=arr.indef or v.indef, mono=frozenset(), note=None,
                                shape=None, alg=alg, sign=sign_join(arr.sign, v.sign) if v.kind in (K_SCALAR, K_BOOL, K_ARRAY) else S_ANY)
+        ap = None
+        if isinstance(arr.parts, tuple) and arr.parts and arr.parts[0] == "ap" and idx is not None:
+            if idx.kind == K_SLICE and idx.items is not None and idx.items[0] is not None and idx.items[0].has_const() and \
+                    idx.items[0].const == 1 and idx.items[1] is None and idx.items[2] is None and isinstance(v.parts, tuple) and \
+                    v.parts[0] == "ap-tail" and v.parts[1] == arr.parts[1]:
+                ap = ("ap", arr.parts[1], arr.parts[2], v.parts[2])          # x[1:] = (its own tail, shifted)
+            elif idx.kind == K_SCALAR and idx.has_const() and idx.const == 0 and v.has_const() and isinstance(v.const, (int, float)) and \
+                    not isinstance(v.const, bool):
+                ap = ("ap", arr.parts[1], v.const, arr.parts[3])             # x[0] = c
         return arr.replace(note=cov if cov is not None else (arr.note if not (isinstance(arr.note, tuple) and arr.note and arr.note[0] == "init") else None),
+                           parts=ap,
                            alg=alg, sign=sign_join(arr.sign, v.sign), mono=frozenset(), f0=keep_f0, const=_NOCONST,
                            tags=arr.tags | v.tags | (idx.tags if idx is not None else frozenset()),
                            indef=arr.indef or v.indef, kind=kind)
@@ -839,13 +849,19 @@ class Interp(object):
             self.emit("dtype-truncation", fr, node, target=target, value=value, how=how)
         toks = frozenset(t for t in target.origin if t not in ("lit", "?"))
         self.emit("mutation", fr, node, origins=target.origin, how=how, target=target, index=index, value=value)
+        structural = how in ("augassign", "subscript-store", "augassign-subscript", "out=")     # these compute `parts` themselves
         new_t = update(target)
+        if not structural and new_t.parts is not None:
+            new_t = new_t.replace(parts=None)
 
         def visit(av):
             if av.kind in (K_ARRAY, K_LIST, K_TOP, K_DICT) and (av.origin & toks):
                 if strong and av.origin == target.origin:
                     return new_t.replace(shape=av.shape if new_t.shape is None else new_t.shape)
-                return update(av)
+                u = update(av)
+                if u.parts is not None and not (structural and av.origin == target.origin and av.shape == target.shape):
+                    u = u.replace(parts=None)          # another view of the storage: its own piece structure is no longer known
+                return u
             return None
         for k, av in list(state.env.items()):
             n = visit(av)
@@ -900,7 +916,13 @@ class Interp(object):
         m = getattr(self, "ex_" + type(e).__name__, None)
         if m is None:
             return self.unmodelled(fr, e, "expression " + type(e).__name__)
-        return m(e, fr)
+        v = m(e, fr)
+        hook = getattr(self, "expr_hook", None)
+        if hook is not None:
+            v2 = hook(fr, e, v)
+            if v2 is not None:
+                return v2
+        return v
 
     def ex_Constant(self, e, fr):
         if e.value is Ellipsis:
